@@ -124,6 +124,17 @@ fn full_pair(a: &[u8], b: &[u8], out: &mut Local) {
         if !a.is_empty() && !b.is_empty() && a != b {
             out.nontrivial(&(alg_name(alg), a, b));
         }
+        // the same contract holds when a deadline cuts the search short (every expiry
+        // point is enumerated by C07; here: expiry at deadline check #0 and #1)
+        for k in [0u64, 1] {
+            out.eval();
+            similar::verif_hooks::set_clock(similar::verif_hooks::Clock::Fuel(k));
+            let r = traced(Entry::Dispatch, alg, a, 0..a.len(), b, 0..b.len(), &eq, Some(far_deadline()), true);
+            similar::verif_hooks::set_clock(similar::verif_hooks::Clock::Off);
+            let ck = || format!("{} deadline expires at check #{}", ctx(), k);
+            report_trace(out, "algorithms::diff_deadline", &ck, &r);
+            out.count("expired_deadline_runs");
+        }
     }
     out.sample(|| format!("old={:?} new={:?} x 3 algorithms x 3 entry points", a, b));
 }
